@@ -539,6 +539,7 @@ static size_t check_load(Ctx &ctx, const char *prop, const LoadResult &lr, const
 // ================================================================ jwksdoc (C07)
 static void jwksdoc_gen(Rng &r, Plan &p, Tier tier, uint64_t index)
 {
+	p.cfg["reuse"] = Val((int64_t)(r.chance(1, 4) ? 1 : 0)); // allocator address reuse (see SimAlloc::reuse)
 	(void)index;
 	int n = (int)r.range(1, tier == QUICK ? 5 : 8);
 	for (int i = 0; i < n; i++) {
@@ -601,6 +602,7 @@ extern const Profile PROFILE_JWKSDOC = {"jwksdoc", jwksdoc_gen, jwksdoc_exec};
 // ================================================================ keyring (C16)
 static void keyring_gen(Rng &r, Plan &p, Tier tier, uint64_t index)
 {
+	p.cfg["reuse"] = Val((int64_t)(r.chance(1, 4) ? 1 : 0)); // allocator address reuse (see SimAlloc::reuse)
 	(void)index;
 	int n = (int)r.range(5, tier == QUICK ? 40 : 80);
 	for (int i = 0; i < n; i++) {
